@@ -10,7 +10,23 @@ from asphalt.core import merge_config
 def main():
     payload = json.load(sys.stdin)
     out = []
-    for o, v in payload["cases"]:
+    for case in payload["cases"]:
+        o, v = case[0], case[1]
+        # the same dict object may sit at several places of an argument (a YAML alias, a reused variable):
+        # every non-empty dict that occurs (by value) more than once in the overrides is made one object
+        if len(case) > 2 and case[2]:
+            seen = {}
+
+            def share(x):
+                if isinstance(x, dict):
+                    for k in list(x):
+                        x[k] = share(x[k])
+                    key = json.dumps(x, sort_keys=True)
+                    if x and key in seen:
+                        return seen[key]
+                    seen[key] = x
+                return x
+            v = share(v)
         o0, v0 = copy.deepcopy(o), copy.deepcopy(v)
         try:
             r = merge_config(o, v)
